@@ -154,6 +154,14 @@ def generate(prop, tier, seed, run):
               'cls': r.choice(['far', 'near', 'near', 'graze']),
               'v': r.uniform(0.0, 3.0), 'gapf': r.uniform(1.05, 3.0),
               'ctrl': r.choice(['random', 'bang', 'zero'])} for _ in range(B)]
+    if pipe == 'positional':
+      # the positional pipeline queries contacts on its predicted positions; a
+      # stiff spring / actuator on a light link can throw the prediction far
+      # beyond 2*|v|*dt, so this pipeline gets no springs and no actuators
+      model['acts'] = []
+      for l in model['links']:
+        for j in l['joints']:
+          j.pop('stiffness', None)
     return {'mode': mode, 'pipeline': pipe, 'model': model,
             'T': r.choice([1, 3, 8, 20]), 'lanes': lanes, 'x64': wc['x64']}
   if mode == 'sep_pair':
@@ -219,14 +227,21 @@ def generate(prop, tier, seed, run):
             'cat': {'stack': stack, 'place': place, 'limited': which}}
   if mode == 'limits':
     for _ in range(50):
+      # no joint springs, motors only and zero control: the positional pipeline
+      # evaluates limits on its *predicted* (integrated, not yet projected)
+      # positions, so a stiff spring or actuator on a light link can reach a
+      # limit inside one step although q is inside before and after it; with
+      # velocity-independent accelerations bounded by gravity the guard margin
+      # 6*|qd|*dt is valid (DESIGN 11.2)
       model = modelgen.gen_model(
           r, roots=r.choice(['free', 'world', 'mixed']), collide=(0, 0),
-          max_links=4 if tier == 'quick' else 6, limit_p=0.8, shift_p=0.5)
+          max_links=4 if tier == 'quick' else 6, limit_p=0.8, shift_p=0.5,
+          springs=False, pos_act=False)
       if any('range' in j for l in model['links'] for j in l['joints']):
         break
     lanes = [{'seed': r.randint(0, 2**31 - 1),
               'cls': r.choice(['inside', 'approach', 'approach']),
-              'ctrl': r.choice(['random', 'bang', 'zero']),
+              'ctrl': 'zero',
               'qd': r.choice([0.3, 1.0, 3.0])} for _ in range(B)]
     return {'mode': mode, 'pipeline': pipe, 'model': model,
             'T': r.choice([1, 3, 8, 20]), 'lanes': lanes, 'x64': wc['x64']}
